@@ -7,7 +7,7 @@ from vlib import C, JOBS, Raw, coq_eval_cases, rng_for, run_impl_worker
 
 IMPORTS = "Base.Prelude Model.Capture"
 TRUSTED = ["Coq kernel, vm_compute", "POSIX descriptor inheritance, Python stream buffering and UTF-8 decoding (the model has no buffering; "
-           "payloads are flushed between levels)", "rich's own terminal output is ignored (payloads carry unique tags)", "harness"]
+           "payloads are flushed between levels except in fd mode, where order must hold without flushing)", "rich's own terminal output is ignored (payloads carry unique tags)", "harness"]
 PAYLOADS = ["hello", "line\n", "no-newline", "", "crlf\r\n", "tab\tsep", "ünïcödé ✓\n", "中文", "a\n\nb\n", " ", "\r", "x" * 300 + "\n"]
 METHODS = {"fd": "MFd", "sys": "MSys", "tee-sys": "MTee", "no": "MNo"}
 
@@ -25,18 +25,31 @@ def gen_case(rng, idx):
                 text = f"<{idx}.{tag[0]}>" + text
             writes.append((rng.choice(["out", "err"]), rng.choice(["py", "py", "fd", "child"]), text, rng.random() < 0.5))
         tasks.append({"writes": writes, "fail": False})
-    # the tasks form a chain (to fix their order), so only the last one may fail
-    tasks[-1]["fail"] = rng.random() < 0.4
-    return {"method": rng.choice(list(METHODS)), "tasks": tasks}
+    if rng.random() < 0.5:
+        # the tasks form a chain (to fix their order), so only the last one may fail
+        tasks[-1]["fail"] = rng.random() < 0.4
+        return {"method": rng.choice(list(METHODS)), "tasks": tasks, "chain": True}
+    # independent tasks: any of them may fail; the model takes the order in which they were reported
+    for t in tasks:
+        t["fail"] = rng.random() < 0.35
+    return {"method": rng.choice(list(METHODS)), "tasks": tasks, "chain": False}
 
 
-def to_coq(case):
+def to_coq(case, order=None):
     tks = []
-    for i, t in enumerate(case["tasks"]):
+    for i in (order if order is not None else range(len(case["tasks"]))):
+        t = case["tasks"][i]
         ws = [C("mkW", Raw("SOut" if s == "out" else "SErr"), Raw({"py": "LPy", "fd": "LFd", "child": "LChild"}[l]), [ord(c) for c in x])
               for s, l, x, _ in t["writes"]]
         tks.append(C("mkT", i, [], ws, [], []))
     return (Raw(METHODS[case["method"]]), tks)
+
+
+def exec_order(case, r):
+    if case.get("chain", True) or r["result"] is None:
+        return None
+    seen = [int(rep["task"].split("_")[-1]) for rep in r["result"]["reports"]]
+    return seen + [i for i in range(len(case["tasks"])) if i not in seen]
 
 
 def run(out, tier, seed, proof):
@@ -49,7 +62,7 @@ def run(out, tier, seed, proof):
     flat = [c for ch in chunks for c in ch]
     model = coq_eval_cases("c14", IMPORTS,
                            "fun c => match c with (m, tks) => let r := run_ttasks m tks init_c in (fst r, term_out (snd r), term_err (snd r)) end",
-                           [to_coq(c) for c in flat], shard=20)
+                           [to_coq(c, exec_order(c, r)) for c, r in zip(flat, res)], shard=20)
     for c, r, m in zip(flat, res, model):
         out.case(c, nontrivial=any(t["writes"] for t in c["tasks"]))
         out.count("method_" + c["method"])
@@ -77,6 +90,12 @@ def run(out, tier, seed, proof):
                 own = got.get((f"task_{i}", "call", stream), "")
                 others = [v for k, v in got.items() if k != (f"task_{i}", "call", stream)]
                 term = r["stdout"] if s == "out" else r["stderr"]
+                if captured:
+                    expect = "".join(x for s2, l2, x, _ in t["writes"]
+                                     if s2 == s and (c["method"] == "fd" or (c["method"] in ("sys", "tee-sys") and l2 == "py")))
+                    if own != expect and text in own:
+                        out.violation("a task's report section does not hold its output in order and unmodified",
+                                      {"case": c, "task": i, "stream": stream, "section": own, "expected": expect})
                 if captured and text not in own:
                     out.violation("output of a task is missing from (or altered in) its own report section", {"case": c, "task": i, "payload": text, "section": own})
                 if any(tagged in v for v in others):
